@@ -11,7 +11,10 @@ def gen_ser(tier, R):
     every kind of literal incl. nested array literals, boundary doubles and random bit patterns, trees compile and optimize produce"""
     names = ['x', '', 'É', '😀', 'a"b', 'a\\b', '\n', '\x00', 'type', 'operator', ' ', '퟿', 'ẞ', '10', '-3', '1.5', '1e3', '.5', '007', 'true', 'null', 'NaN', 'inf', '[]', '{}']
     doubles = [0.0, -0.0, 1.0, -1.5, 0.1, 1e300, 5e-324, 2.2250738585072014e-308, 1.7976931348623157e308, 2.0**53, 2.0**53 + 2, 9007199254740993.0, 1e21, 1e-7, 123456.789, 4.35, 0.3,
-               NAN, INF, -INF]
+               NAN, INF, -INF,
+               # magnitudes around the integer types a serializer might narrow to, in both signs (negative literals only arise from folding or hand-built trees)
+               9.5e18, -9.5e18, 1e16, -1e16, 1e17, -1e17, 2.0**63, -(2.0**63), -(2.0**63) - 2048.0, 2.0**64, 1.8e19, -1.8e19, 2.0**31, -(2.0**31), 2.0**32, 4294967295.0, 16777216.0, 16777217.0, 2147483648.0,
+               -2147483649.0, 65536.0 * 65536.0, 1.0 + 2.0**-23, 2.0**-23, -1.0, -0.1, -1e-7, -5e-324, -1.7976931348623157e308]
     lits = [num(x) for x in doubles] + [s(n) for n in names] + [b(True), b(False), arr(), arr(num(1.0), s('a'), arr(b(True), arr())), arr(num(NAN)), arr(arr(num(INF)))]
     # every shape of (finite) array literal to depth 3 with 0..2 members per level: singletons of singletons, empty inside non-empty, mixed depths
     def shapes(d):
@@ -89,7 +92,8 @@ def gen_env(tier, R):
     several spellings (incl. a non-ASCII pair) x {variable, function}, random histories up to 60 (200) steps; every lookup, existence check,
     call and listing after every step"""
     qs = "(qs " + " ".join(s(n) for n in NAMES) + ")"
-    vals = [num(1.0), num(2.0), "(b 1)", s('v')]
+    # (the last ones: values that are `=` to another value of the same kind without being identical - an overwrite must still replace the stored value)
+    vals = [num(1.0), num(2.0), "(b 1)", s('v'), num(0.0), num(-0.0), arr(num(1.0)), arr(b(True)), arr(s('1')), arr(num(0.0)), arr(num(-0.0))]
     AL = []
     for n in ["a", "A", "ä", "Ä", "ab", "AB"]:
         for v in vals[:2]:
